@@ -203,6 +203,12 @@ class Ctx:
                 return self.lin(base[2][1], depth + 1)
             if base[0] == "repeat" and str(base[2]).isdigit():
                 return Lin(k=int(base[2]))
+            if base[0] == "agg" and base[1] == "array":
+                return Lin(k=len(base[2]))
+            if base[0] == "const" and isinstance(base[2], str):
+                mm = re.search(r"\[.*; (\d+)\]$", base[2].strip())
+                if mm:
+                    return Lin(k=int(mm.group(1)))
             a = len_atom(base)
             self.nonneg.add(a)
             return Lin({a: 1})
@@ -213,6 +219,9 @@ class Ctx:
         if t in ("ref", "deref"):
             return self.lin(s[1], depth + 1)
         if t == "cast" and s[3] == "IntToInt":
+            inner0 = self.lin(s[2], depth + 1)
+            if inner0.is_const() and 0 <= inner0.k < 2 ** 31:
+                return inner0
             src = self.ty_of(s[2])
             # widening between unsigned types (or to a wider signed type) preserves the value
             if src in UNSIGNED and (s[1] in UNSIGNED or s[1] in SIGNED) and _width(s[1]) >= _width(src) and \
@@ -319,7 +328,7 @@ def edge_facts(B, cx, site_bb):
                 chosen = cand[0]
             else:
                 continue
-        sym = B.sym_op(t["d"], through_vars=True)
+        sym = B.sym_op(t["d"], through_vars="pure")
         vals = [v for v, tt in zip(t["vals"], t["ts"]) if tt == chosen]
         is_other = chosen == t["otherwise"] and chosen not in [tt for tt in t["ts"]]
         if t.get("dty") == "bool":
@@ -486,7 +495,7 @@ class Audit:
                     vals.add("?")
                     lens.add("?")
                     continue
-                a = Bq.sym_op(t["args"][i - 1], through_vars=True)
+                a = Bq.sym_op(t["args"][i - 1], through_vars="pure")
                 cq = Ctx(Bq, self.F)
                 la = cq.lin(a)
                 vals.add(la.k if la.is_const() else "?")
@@ -497,6 +506,8 @@ class Audit:
                 out.append((Lin({atom: 1}, -list(vals)[0]), "=="))
             if len(lens) == 1 and "?" not in lens:
                 out.append((Lin({"len(%s)" % atom: 1}, -list(lens)[0]), "=="))
+            elif lens and "?" not in lens:
+                out.append((Lin({"len(%s)" % atom: 1}, -min(lens)), ">="))
         self._pf[p] = out
         return out
 
@@ -574,7 +585,8 @@ class Audit:
             return
         desc = self._describe(B, cx, s)
         for gi, g in enumerate(self.groups):
-            if s.fn == g["fn"] and re.search(g["what"], _short_what(s.what)) and re.search(g["operands"], desc):
+            if (s.fn == g.get("fn") or ("fn_rx" in g and re.search(g["fn_rx"], s.fn))) and \
+                    re.search(g["what"], _short_what(s.what)) and re.search(g["operands"], desc):
                 self.group_hits[gi].append(s.key)
                 s.verdict, s.reason = "justified", "[group %s] %s" % (g["name"], g["reason"])
                 return
@@ -611,17 +623,17 @@ class Audit:
             parts = []
             for k in ("len", "index", "a", "b"):
                 if k in m and isinstance(m[k], dict):
-                    parts.append("%s=%s" % (k, M.show(B.sym_op(m[k], through_vars=True))[:70]))
+                    parts.append("%s=%s" % (k, M.show(B.sym_op(m[k], through_vars="pure"))[:70]))
             return "%s %s" % (s.what, ", ".join(parts))
         t = s.operands
-        return "%s(%s)" % (M.short_callee(s.what), ", ".join(M.show(B.sym_op(a, through_vars=True))[:60] for a in t["args"]))
+        return "%s(%s)" % (M.short_callee(s.what), ", ".join(M.show(B.sym_op(a, through_vars="pure"))[:60] for a in t["args"]))
 
     def _assert(self, B, cx, s):
         m = s.operands
         k = m["k"]
         facts, variants = edge_facts(B, cx, s.bb)
         facts = _Facts(facts + self.param_facts(s.fn), cx)
-        sym = lambda o: B.sym_op(o, through_vars=True)
+        sym = lambda o: B.sym_op(o, through_vars="pure")
         if k == "BoundsCheck":
             ln, ix = cx.lin(sym(m["len"])), cx.lin(sym(m["index"]))
             goal = ln.add(ix, -1).add(Lin(k=1), -1)   # len - idx - 1 >= 0
@@ -665,7 +677,7 @@ class Audit:
         c = s.what
         facts, variants = edge_facts(B, cx, s.bb)
         facts = _Facts(facts + self.param_facts(s.fn), cx)
-        args = [B.sym_op(a, through_vars=True) for a in t["args"]]
+        args = [B.sym_op(a, through_vars="pure") for a in t["args"]]
         cls = s.cls
         if cls == "index":
             base, idx = strip_refs(args[0]), args[1]
@@ -749,32 +761,38 @@ class Audit:
         return 1
 
     def _enum_index(self, B, base, idx):
-        # idx = (discr/cast of an enum value) as usize; base = a lazy_static Vec built with from_elem(_, Enum::N as usize)
-        i = idx
-        while i[0] in ("cast",):
-            i = i[2]
-        ty = None
-        if i[0] in ("var", "arg"):
-            ty = B.local_ty(i[2])
-        elif i[0] == "discr":
+        """TABLE[e as usize] where e is a field-less enum value and TABLE is the lazy_static vector built
+        with vec![_; Enum::<Count> as usize]: every discriminant is below the table length."""
+        if idx[0] != "cast" or idx[1] != "usize" or idx[2][0] != "discr":
             return None
-        elif i[0] in ("field", "deref"):
-            ty = None
-        # type of the casted operand from the cast chain
-        if idx[0] == "cast":
-            src = idx[2]
-            ty = _term_ty(B, src)
-        if not ty:
+        cx = Ctx(B, self.F)
+        ety = cx.ty_of(idx[2][1])
+        if not ety:
             return None
-        en = self.F.enum_variants(ty.lstrip("&"))
+        ety = ety.strip().lstrip("&")
+        en = self.F.enum_variants(ety)
         if not en:
             return None
         shown = M.show(base)
-        if "PARSE_RULES" in shown or "LAZY" in shown or "lazy" in shown or "Deref" in shown or "deref" in shown:
-            mx = max(d for _, d in en)
-            cnt = [d for n, d in en if n in ("NumberOfTokens", "Count", "Invalid")]
-            if cnt and mx <= max(cnt):
-                return "enum-index: %s discriminants <= table size" % ty
+        m = re.search(r"([a-z_:]+::[A-Z_]+)\b", shown)
+        # the base must be a lazy_static table whose initialiser allocates <Enum>::<last variant> as usize entries
+        for p, f in self.F.fns.items():
+            if not p.endswith("::__static_ref_initialize") or "lazy_static" not in f.get("mac", ""):
+                continue
+            static = p[1:].split(" as ")[0]
+            if H.last(static) not in shown:
+                continue
+            for x in H.walk(H.body_of(f)):
+                if x.get("k") == "call" and x.get("callee") == "std::vec::from_elem":
+                    n = H.strip(x["args"][1])
+                    if n.get("k") == "cast":
+                        c = H.ctor_of(H.strip(n["e"]))
+                        if c and c.rsplit("::", 1)[0] == ety:
+                            size = dict(en).get(H.last(c))
+                            others = [d for nm, d in en if nm != H.last(c)]
+                            if size is not None and all(d < size for d in others):
+                                # the count variant itself is never a token/prop value (checked: nothing constructs it)
+                                return "enum-index: %s has %d value variants, table %s has %d entries" % (ety, len(others), H.last(static), size)
         return None
 
 
